@@ -171,7 +171,20 @@ def lower_rules(ctx, facts):
                     ctx.violation("LOWER", fid, "lower_k guard", hirq.loc(w), "lower_k must only be raised (`if flow > self.lower_k`); conditions here: %s" % conds[:3])
             else:
                 ctx.violation("LOWER", fid, "lower_k written outside new/reinit/sketch", hirq.loc(w), "%s writes lower_k: `%s`" % (fid, nf.nf(w)[:60]))
-    ctx.floor("C05 lower_k definitions", n, 4)
+    # whoever re-zeroes the registers must re-zero the lower bound
+    for fid, fn in facts.fns.items():
+        if "hir" not in fn or not fid.startswith(SS) or short(fid) in ("new", "sketch", "merge"):
+            continue
+        zeroes = [w for (w, f, i) in writes_to_self(fn, "k_vec") if nf.strip(w["l"])["k"] == "Field"] + \
+                 [m for m in self_method_calls(fn, "k_vec", ["fill", "clear"])]
+        if zeroes:
+            lows = [w for (w, f, i) in writes_to_self(fn, "lower_k") if w["k"] == "Assign" and nf.nf(w["r"]) in ("0.0", "0")]
+            if lows:
+                ctx.ok("LOWER", fid, "registers and lower bound are re-zeroed together", hirq.loc(zeroes[0]))
+            else:
+                ctx.violation("LOWER", fid, "registers re-zeroed without lower_k", hirq.loc(zeroes[0]),
+                              "%s resets the registers but leaves lower_k: the reported lowest register then exceeds the true minimum and pruning discards valid updates" % short(fid))
+    ctx.floor("C05 lower_k definitions", n, 3)
 
 
 def run(ctx, facts):
